@@ -148,7 +148,16 @@ def build(case_dec, which):
                 return onp.zeros(tuple(fresh_out[0]), dtype=fresh_out[1])
             return self.d[k]
 
-    kwargs = _KW(kwargs_) if fresh_out else kwargs_
+    out_pos = case_dec.get("fresh_out_pos")  # the fresh buffer goes there POSITIONALLY instead of out=
+    kwargs = _KW(kwargs_) if (fresh_out and out_pos is None) else kwargs_
+
+    def with_buf(a):
+        if out_pos is None:
+            return a
+        a = list(a)
+        assert len(a) == out_pos, "fresh_out_pos must directly follow the listed arguments"
+        return a + [onp.zeros(tuple(fresh_out[0]), dtype=fresh_out[1])]
+
     dup = case_dec.get("dup")
     mod = mods[ns]
 
@@ -217,7 +226,7 @@ def build(case_dec, which):
             import autograd.scipy.signal as _sig
 
             f = _sig.convolve.fun
-        return (lambda x: finish(f(*expand(x), **kwargs))), x0
+        return (lambda x: finish(f(*with_buf(expand(x)), **kwargs))), x0
     if form == "method":
 
         def call(x):
@@ -306,7 +315,7 @@ def signature(case_dec, mode):
         "kw": {k: classify(v) for k, v in case_dec["kwargs"].items()},
         "point": case_dec.get("point", "regular"),
     }
-    for k in ("bcast", "tags", "outsel", "dup", "domain", "layout", "outer", "joint", "dup_paths", "fresh_out"):
+    for k in ("bcast", "tags", "outsel", "dup", "domain", "layout", "outer", "joint", "dup_paths", "fresh_out", "fresh_out_pos"):
         if case_dec.get(k) is not None:
             sig[k] = case_dec[k]
     return sig
@@ -650,14 +659,17 @@ def eval_pair(case_dec, rng):
         if dt_.kind in "fc":
             prec = max(prec, float(onp.finfo(dt_).eps) / float(onp.finfo(onp.float64).eps))
     prec = min(prec, 1e13)
-    tol = prec * 1e-10 * (float(onp.sum(onp.abs(G1c * T1))) + float(onp.sum(onp.abs(R1 * V1)))) + 1e-12 * float(onp.sum(onp.abs(G1c))) * float(onp.max(onp.abs(V1))) * (1.0 + ymax)
+    # (1e-10 is ~5e5 ulp: scaled to half / single precision that would exceed the quantities themselves, so the
+    # relative part is capped at 2% of the absolute products)
+    rel = min(prec * 1e-10, 0.02)
+    tol = rel * (float(onp.sum(onp.abs(G1c * T1))) + float(onp.sum(onp.abs(R1 * V1)))) + 1e-12 * float(onp.sum(onp.abs(G1c))) * float(onp.max(onp.abs(V1))) * (1.0 + ymax)
     if not abs(lhs - rhs) <= tol:
         return Outcome("violation", symptom="not_adjoint", detail="<g,JVP(v)>=%r <VJP(g),v>=%r" % (lhs, rhs))
     # linearity (realified R is linear in realified conj g since conj is real-linear)
-    sc = prec * 1e-10 * (1.0 + float(onp.max(onp.abs(a * R1))) + float(onp.max(onp.abs(b * R2))))
+    sc = rel * (1.0 + float(onp.max(onp.abs(a * R1))) + float(onp.max(onp.abs(b * R2))))
     if R3.shape != R1.shape or float(onp.max(onp.abs(R3 - (a * R1 + b * R2)))) > sc * max(1, 1):
         return Outcome("violation", symptom="vjp_nonlinear", detail="max dev %r" % float(onp.max(onp.abs(R3 - (a * R1 + b * R2)))))
-    sc = prec * 1e-10 * (1.0 + float(onp.max(onp.abs(a * T1))) + float(onp.max(onp.abs(b * T2))))
+    sc = rel * (1.0 + float(onp.max(onp.abs(a * T1))) + float(onp.max(onp.abs(b * T2))))
     if T3.shape != T1.shape or float(onp.max(onp.abs(T3 - (a * T1 + b * T2)))) > sc:
         return Outcome("violation", symptom="jvp_nonlinear", detail="max dev %r" % float(onp.max(onp.abs(T3 - (a * T1 + b * T2)))))
     return Outcome("ok")
@@ -1123,6 +1135,16 @@ def make_cases(pid, tier, seed):
     elif mode in ("pair", "struct", "order2"):
         out = out + extra[::3] + toggles[::3]
     if mode == "cplx":
+        # complex-TYPED data that lies on the real axis (real data that became complex on the way): every linalg /
+        # fft configuration once more with the imaginary parts of its array arguments set to exactly zero
+        zi = []
+        for c in out:
+            if c["ns"] in ("linalg", "fft") and c["form"] == "function" and not c.get("layout") and not c.get("joint") and not c.get("gauge") and not (set(c.get("tags") or []) - {"values"}) and any(isinstance(a, onp.ndarray) and a.dtype.kind == "c" for a in c["args"]):
+                c2 = dict(c)
+                c2["args"] = [(a.real + 0j) if isinstance(a, onp.ndarray) and a.dtype.kind == "c" else a for a in c["args"]]
+                c2["tags"] = list(c.get("tags") or []) + ["zero_imag"]
+                zi.append(c2)
+        out = out + [c for k, c in enumerate(zi) if k % 2 == 0 or c["prim"] in ("eig", "eigh", "eigvals", "eigvalsh")]
         # gauge-dependent outputs (eigenvector / singular-vector phases) are not functions of the input
         # alone for complex data: only the gauge-free selections are judged
         out = [c for c in out if not c.get("gauge")]
